@@ -18,22 +18,27 @@ import (
 // Variant describes *how* the arguments are represented on the Go side. It never changes the
 // protocol-level meaning of a call (the generator keeps spec.Call consistent with it).
 type Variant struct {
-	DoorsNil     bool     `json:"doors_nil,omitempty"`     // nil map (all permissions 0)
-	DoorsPresent [4]bool  `json:"doors_present"`           // which of keys 1..4 are in the map
-	ForeignDoors []uint8  `json:"foreign_doors,omitempty"` // extra keys (0, 5..255) with value 0x5a
-	WeekdaysNil  bool     `json:"weekdays_nil,omitempty"`
-	WeekPresent  [7]bool  `json:"week_present"` // which weekday keys are in the map (monday..sunday)
-	ReadersNil   bool     `json:"readers_nil,omitempty"`
-	ReadPresent  [4]bool  `json:"read_present"`
-	ForeignRead  []uint8  `json:"foreign_read,omitempty"`
-	IP16         [3]bool  `json:"ip16"`               // address/mask/gateway given as 16-byte net.IP
-	DateLoc      [2]string `json:"date_loc"`          // "" = types.ToDate; otherwise Date(time.Date(.., loc)) with DateClock
-	DateClock    [2][3]int `json:"date_clock"`        // hour, minute, second for from/to when DateLoc is set
-	TimeLoc      string   `json:"time_loc,omitempty"` // SetTime: location name ("" = UTC, "fixed:+hhmm" = fixed offset)
-	TimeNanos    int      `json:"time_nanos,omitempty"`
-	RawPasscodes []uint32 `json:"raw_passcodes,omitempty"` // SetDoorPasscodes: the passcodes as passed
-	Formats      []uint8  `json:"formats,omitempty"`       // PutCard: card formats as passed
-	ExtraSegments []uint8 `json:"extra_segments,omitempty"` // SetTimeProfile: extra (foreign) segment keys
+	DoorsNil      bool      `json:"doors_nil,omitempty"`     // nil map (all permissions 0)
+	DoorsPresent  [4]bool   `json:"doors_present"`           // which of keys 1..4 are in the map
+	ForeignDoors  []uint8   `json:"foreign_doors,omitempty"` // extra keys (0, 5..255) with value 0x5a
+	WeekdaysNil   bool      `json:"weekdays_nil,omitempty"`
+	WeekPresent   [7]bool   `json:"week_present"` // which weekday keys are in the map (monday..sunday)
+	ReadersNil    bool      `json:"readers_nil,omitempty"`
+	ReadPresent   [4]bool   `json:"read_present"`
+	ForeignRead   []uint8   `json:"foreign_read,omitempty"`
+	IP16          [3]bool   `json:"ip16"`               // address/mask/gateway given as 16-byte net.IP
+	DateLoc       [2]string `json:"date_loc"`           // "" = types.ToDate; otherwise Date(time.Date(.., loc)) with DateClock
+	DateClock     [2][3]int `json:"date_clock"`         // hour, minute, second for from/to when DateLoc is set
+	TimeLoc       string    `json:"time_loc,omitempty"` // SetTime: location name ("" = UTC, "fixed:+hhmm" = fixed offset)
+	TimeNanos     int       `json:"time_nanos,omitempty"`
+	RawPasscodes  []uint32  `json:"raw_passcodes,omitempty"`  // SetDoorPasscodes: the passcodes as passed
+	Formats       []uint8   `json:"formats,omitempty"`        // PutCard: card formats as passed
+	ExtraSegments []uint8   `json:"extra_segments,omitempty"` // SetTimeProfile: extra (foreign) segment keys
+	// out-of-domain representations (C04 / C07)
+	ListenerRaw     string   `json:"listener_raw,omitempty"`     // SetListener: netip.ParseAddrPort text; "invalid" = zero value AddrPort
+	RawIPs          [][]byte `json:"raw_ips,omitempty"`          // SetAddress: address, mask, gateway as raw net.IP bytes (nil entry = nil IP)
+	MissingSegments []uint8  `json:"missing_segments,omitempty"` // SetTimeProfile: segment keys left out of the map
+	SegmentsNil     bool     `json:"segments_nil,omitempty"`     // SetTimeProfile: nil segments map
 }
 
 type Case struct {
@@ -42,11 +47,11 @@ type Case struct {
 }
 
 type Result struct {
-	Err    error
-	Nil    bool
-	Rec    spec.Rec
-	Value  any // the returned object (for String()/JSON rendering), nil if none
-	Panic  any // recovered panic value
+	Err   error
+	Nil   bool
+	Rec   spec.Rec
+	Value any // the returned object (for String()/JSON rendering), nil if none
+	Panic any // recovered panic value
 }
 
 func (r Result) String() string {
@@ -147,6 +152,12 @@ func Profile(c spec.Call, v Variant) types.TimeProfile {
 			p.Segments[k] = types.Segment{Start: types.NewHHmm(1, 2), End: types.NewHHmm(3, 4)}
 		}
 	}
+	for _, k := range v.MissingSegments {
+		delete(p.Segments, k)
+	}
+	if v.SegmentsNil {
+		p.Segments = nil
+	}
 	return p
 }
 
@@ -185,6 +196,30 @@ func SetTimeArg(c spec.Call, v Variant) (time.Time, spec.CivilDT) {
 
 func Listener(c spec.Call) netip.AddrPort {
 	return netip.AddrPortFrom(netip.AddrFrom4(c.Listener), c.Port)
+}
+
+// ListenerArg honours the raw (possibly non-IPv4 / invalid) representation of the variant.
+func ListenerArg(c spec.Call, v Variant) netip.AddrPort {
+	switch {
+	case v.ListenerRaw == "":
+		return Listener(c)
+	case v.ListenerRaw == "invalid":
+		return netip.AddrPort{}
+	}
+	if a, err := netip.ParseAddrPort(v.ListenerRaw); err == nil {
+		return a
+	}
+	return netip.AddrPort{}
+}
+
+func ipArg(b [4]byte, as16 bool, raw [][]byte, i int) net.IP {
+	if raw != nil && i < len(raw) {
+		if raw[i] == nil {
+			return nil
+		}
+		return net.IP(append([]byte(nil), raw[i]...))
+	}
+	return mkIP(b, as16)
 }
 
 // Text canonicalisation of library values ---------------------------------------------------------
@@ -310,7 +345,7 @@ func Invoke(u uhppote.IUHPPOTE, cs Case) (res Result) {
 		}
 		return Result{Rec: DeviceRec(*d), Value: d}
 	case "SetAddress":
-		r, err := u.SetAddress(c.Serial, mkIP(c.Address, v.IP16[0]), mkIP(c.Mask, v.IP16[1]), mkIP(c.Gateway, v.IP16[2]))
+		r, err := u.SetAddress(c.Serial, ipArg(c.Address, v.IP16[0], v.RawIPs, 0), ipArg(c.Mask, v.IP16[1], v.RawIPs, 1), ipArg(c.Gateway, v.IP16[2], v.RawIPs, 2))
 		if err != nil {
 			return Result{Err: err}
 		} else if r == nil {
@@ -324,7 +359,7 @@ func Invoke(u uhppote.IUHPPOTE, cs Case) (res Result) {
 		}
 		return Result{Rec: spec.Rec{"listener": AddrPortText(a), "interval": fmt.Sprint(i)}, Value: a}
 	case "SetListener":
-		return okRec(u.SetListener(c.Serial, Listener(c), c.Interval))
+		return okRec(u.SetListener(c.Serial, ListenerArg(c, v), c.Interval))
 	case "GetTime":
 		t, err := u.GetTime(c.Serial)
 		if err != nil {
